@@ -160,6 +160,7 @@ class SimDev:
         self.events = []             # ('tx', hdr, data) | ('rx', hdr, data) | ('to', wait)
         self.budget = packet_budget
         self.same = [None, 0]
+        self.sd_new_start = None     # start page the nRF51 bootloader reports after it has been restarted (soft-device update)
 
     # -- replies
     def _reply(self, hdr, data):
@@ -200,6 +201,8 @@ class SimDev:
             self._reply(0xFF, bytes(data[0:6]) + bytes(t.flash[off:off + 25]))
         elif cmd == 0xFF:
             self._reply(0xFF, bytes([t.addr, 0xFF, 0x11, 0x22, 0x33, 0x44, 0x55, 0x66]))
+        elif cmd == 0xF0 and t.addr == NRF51 and self.sd_new_start is not None:
+            t.sp = self.sd_new_start          # the freshly flashed bootloader + soft device come up
         # 0xF0 (reset) and everything else: silently accepted
 
     def _write_flash(self, t, data):
@@ -338,6 +341,24 @@ def run_case(case, tmpdir=None):
                         zf.writestr(fn, img)
                         files[fn] = {'platform': 'cf2', 'target': tgt, 'type': 'fw', 'release': '2099.1',
                                      'requires': ['sd-s110'] if tgt == 'nrf51' else []}
+                    zf.writestr('manifest.json', json.dumps({'version': 2, 'files': files}))
+                bl.flash(path, [])
+            elif mode == 'zip_sd':
+                # a release that updates the nRF51 soft device: bootloader+softdevice image, then the nRF51 firmware that
+                # needs it (and optionally an STM32 image) - one flash() call, the bootloader restarts in between
+                dev.sd_new_start = case['sd_new_start']
+                path = os.path.join(tmpdir, 'fw.zip')
+                files = {}
+                with zipfile.ZipFile(path, 'w') as zf:
+                    for k, (tgt, img, kind) in enumerate(arts):
+                        fn = '%s-%d.bin' % (tgt, k)
+                        zf.writestr(fn, img)
+                        if kind == 'sdbl':
+                            files[fn] = {'platform': 'cf2', 'target': 'nrf51', 'type': 'bootloader+softdevice',
+                                         'release': '2.0', 'provides': ['sd-s130'], 'requires': []}
+                        else:
+                            files[fn] = {'platform': 'cf2', 'target': tgt, 'type': 'fw', 'release': '2099.1',
+                                         'requires': ['sd-s130'] if tgt == 'nrf51' else []}
                     zf.writestr('manifest.json', json.dumps({'version': 2, 'files': files}))
                 bl.flash(path, [])
             else:
@@ -728,6 +749,61 @@ def job_api(job):
     return p
 
 
+def job_sd(job):
+    """flash() of a release that replaces the nRF51 bootloader + soft device (start page 88 -> 108) before the firmware.
+    Lengths are whole pages, so the final flash is exact: the first firmware page of the old layout erased, the
+    bootloader+softdevice image at the top of the flash, the firmware at the NEW start page, nothing else touched."""
+    _, cases = job
+    p = Partial()
+    with tempfile.TemporaryDirectory(prefix='c12_') as td:
+        for (gn, npages_sd, npages_fw, with_stm, order) in cases:
+            gs = [26, 3, 8, 1]
+            ps, bp, fp, sp = gn
+            arts = [['nrf51', npages_sd * ps, 'sdbl'], ['nrf51', npages_fw * ps, 'fw']]
+            if with_stm:
+                arts.append(['stm32', 52, 'fw'])
+            if order:
+                arts.reverse()
+            case = {'mode': 'zip_sd', 'cb': 0, 'geo': {'stm32': gs, 'nrf51': list(gn)}, 'arts': arts, 'pat': [],
+                    'sd_new_start': 108}
+            obs = run_case(case, td)
+            dev = obs['dev']
+            p.case(key=('sd', tuple(gn), npages_sd, npages_fw, with_stm, order), outcome=('sd', obs['result'][:1]))
+            p.points += obs['attempts']
+            rp = {'case': case}
+            if obs['result'] != ('returned',):
+                p.violation('sd_update:did_not_complete', 'flash() of a soft-device update ended with %r  [case %s]' % (
+                    obs['result'], json.dumps(case)), rp)
+                continue
+            imgs = {(tgt, kind): image_bytes(n, k) for k, (tgt, n, kind) in enumerate(arts)}
+            t = dev.t[NRF51]
+            exp = bytearray(t.flash0)
+            exp[88 * ps:89 * ps] = b'\xff' * ps                         # old firmware's first page erased
+            top = fp - npages_sd
+            exp[top * ps:(top + npages_sd) * ps] = imgs[('nrf51', 'sdbl')]
+            exp[108 * ps:(108 + npages_fw) * ps] = imgs[('nrf51', 'fw')]
+            if bytes(t.flash) != bytes(exp):
+                bad = [i // ps for i in range(len(exp)) if t.flash[i] != exp[i]]
+                p.violation('sd_update:nrf51_flash', 'after the soft-device update (bootloader restarts with start page 108) the '
+                            'nRF51 flash differs from [page 88 erased, bootloader+softdevice at pages %d.., firmware at pages '
+                            '108..%d] on pages %r  [case %s]' % (top, 107 + npages_fw, sorted(set(bad))[:12], json.dumps(case)), rp)
+            ts = dev.t[STM32]
+            exps = bytearray(ts.flash0)
+            if with_stm:
+                img = imgs[('stm32', 'fw')]
+                exps[gs[3] * gs[0]:gs[3] * gs[0] + len(img)] = img
+                # the tail of the last page is unspecified (whole pages are written): compare the image range only
+                ok = bytes(ts.flash[:gs[3] * gs[0]]) == bytes(exps[:gs[3] * gs[0]]) and \
+                    bytes(ts.flash[gs[3] * gs[0]:gs[3] * gs[0] + len(img)]) == bytes(img) and \
+                    bytes(ts.flash[(gs[3] + 2) * gs[0]:]) == bytes(exps[(gs[3] + 2) * gs[0]:])
+            else:
+                ok = bytes(ts.flash) == bytes(exps)
+            if not ok:
+                p.violation('sd_update:stm32_flash', 'STM32 flash after the release differs from the expected image / untouched '
+                            'state  [case %s]' % json.dumps(case), rp)
+    return p
+
+
 def _dispatch(job):
     return globals()['job_' + job[0]](job)
 
@@ -883,6 +959,10 @@ def run(ck):
     base = {'mode': 'bin', 'cb': 1, 'geo': {'stm32': gs, 'nrf51': gn}, 'arts': [['stm32', 79, None]], 'pat': []}
     jobs.append(('faults', base, LETTERS_ALL, 2, (), 'flash()_dev<=2'))
 
+    sd_cases = [([50, 2, 128, 88], nsd, nfw, ws, order) for nsd in (1, 2, 5) for nfw in (1, 2, 3) for ws in (0, 1)
+                for order in (0, 1)]
+    jobs.append(('sd', sd_cases[:len(sd_cases) // 2]))
+    jobs.append(('sd', sd_cases[len(sd_cases) // 2:]))
     ck.pmap(_dispatch, jobs)
     ck.exhaustive = True
     ck.note('all_pattern_trees', tree_notes)
